@@ -173,3 +173,15 @@ func Pause() { time.Sleep(20 * time.Millisecond) }
 
 // VisibleAtomics(true) makes sync/atomic operations scheduling points of the executor.
 func VisibleAtomics(on bool) {}
+
+// AdvanceClock lets n seconds of the executor's concrete clock pass; natively it sleeps n*10ms
+// (harnesses scale their time-outs accordingly, see Unit).
+func AdvanceClock(n int) { time.Sleep(time.Duration(n) * 10 * time.Millisecond) }
+
+// Unit is the harness's time unit: one second of the executor's concrete clock, 10ms natively.
+func Unit() time.Duration {
+	if Symbolic() {
+		return time.Second
+	}
+	return 10 * time.Millisecond
+}
